@@ -1004,6 +1004,30 @@ impl St {
                     })
                 }))
             }
+            // `remove_opts F C KEY default|false`: the BUILDER used the way its docs show it - `RemoveOpts::new()` with no
+            // setter called, or `remove_fully(false)` - which is a plain `remove` (a tombstone; content stays)
+            "remove_opts" => {
+                need(a, 4)?;
+                let fl = parse_fl(a[0])?;
+                let c = parse_cache(a[1])?;
+                let key = parse_utf8(a[2])?;
+                let explicit = match a[3] {
+                    "default" => false,
+                    "false" => true,
+                    _ => return Err(Bad::Arg),
+                };
+                Ok(clocked(&c, &key, || {
+                    guard(|| {
+                        let o = || {
+                            let o = cacache::RemoveOpts::new();
+                            if explicit { o.remove_fully(false) } else { o }
+                        };
+                        res_unit(flav!(fl,
+                            o().remove_sync(&c, &key);
+                            o().remove(&c, &key).await))
+                    })
+                }))
+            }
             "remove_hash" => {
                 need(a, 3)?;
                 let fl = parse_fl(a[0])?;
